@@ -63,14 +63,25 @@ fn render(m: &Material, toks: &[Value], style: u64) -> String {
                 let val = match v {
                     "P1" => m.pubs[0].clone(),
                     "P2" => m.pubs[1].clone(),
-                    _ => [Base64::encode_to_string(&[7u8; 35]).unwrap(), Base64::encode_to_string(&[7u8; 37]).unwrap(), "not base64 !!".to_string(), "".to_string()][(s % 4) as usize].clone(),
+                    _ => {
+                        let mut spaced = m.pubs[0].clone();
+                        spaced.insert(24, ' ');
+                        [Base64::encode_to_string(&[7u8; 35]).unwrap(), Base64::encode_to_string(&[7u8; 37]).unwrap(), "not base64 !!".to_string(), "".to_string(), spaced][(s % 5) as usize].clone()
+                    }
                 };
                 field("PublicKey", &val, s)
             }
             "priv" => {
                 let val = match v {
                     "K1" => m.privs[0].clone(),
-                    _ => [Base64::encode_to_string(&[7u8; 83]).unwrap(), m.pubs[0].clone(), "$$$".to_string(), Base64::encode_to_string(&[7u8; 85]).unwrap()][(s % 4) as usize].clone(),
+                    _ => {
+                        // wrong length, a public key, not base64, too long, and a valid key with one blank / tab inside
+                        let mut spaced = m.privs[0].clone();
+                        spaced.insert(56, ' ');
+                        let mut tabbed = m.privs[0].clone();
+                        tabbed.insert(20, '\t');
+                        [Base64::encode_to_string(&[7u8; 83]).unwrap(), m.pubs[0].clone(), "$$$".to_string(), Base64::encode_to_string(&[7u8; 85]).unwrap(), spaced, tabbed][(s % 6) as usize].clone()
+                    }
                 };
                 field("PrivateKey", &val, s)
             }
